@@ -2056,8 +2056,21 @@ class GColl(G):
                 cmpf = L_("c", ["a", "b"], ("bin", "-", ("var", "a"), ("var", "b")))
             elif cc < 8:
                 cmpf = L_("c", ["a", "b"], ("bin", "-", ("var", "b"), ("var", "a")))
-            else:
+            elif cc < 9:
                 cmpf = ("lambda", ["a", "b"], ("block", [("if", ("bin", ">", ("var", "a"), N_(self.i(0, 5))), [("raise", ("call", ("var", "ValueError"), [("str", "cmp")]))], None), ("implicit", ("bin", "-", ("var", "a"), ("var", "b")))]))
+            else:
+                # a comparator that counts its calls and fails at the k-th (k <= n - 1, the fewest comparisons any sort
+                # of n elements makes): once it has failed it must not be called again, so the count ends at k
+                n = self.i(3, 6)
+                k = self.i(1, 2)
+                cnt = self.fresh("calls")
+                bad = self.pick([("raise", ("call", ("var", "ValueError"), [("str", "cmp")])), ("return", ("str", "x")),
+                                 ("return", ("nil",))])
+                cmpf = ("lambda", ["a", "b"], ("block", [("expr", ("opassign", "+", ("var", cnt), N_(1))),
+                                                        ("if", ("bin", "==", ("var", cnt), N_(k)), [bad], None),
+                                                        ("implicit", ("bin", "-", ("var", "a"), ("var", "b")))]))
+                items = [N_(v) for v in range(n, 0, -1)]
+                return [("let", cnt, N_(0)), self.wrap(("call", ("prop", ("list", items), "sort"), [cmpf])), ("print", ("var", cnt))]
             return [self.wrap(("call", ("prop", ("list", [self.num() for _ in range(self.i(0, 5))]), "sort"), [cmpf]))]
         if c < 90:
             return [self.wrap(("call", ("prop", l, self.pick(["push", "insert", "remove", "slice"])), [self.pick([("str", "x"), ("nil",), ("list", [])])]))]
